@@ -20,7 +20,7 @@ ID = 'C02'
 LEVEL = 'exploration'
 TECHNIQUE = ('runtime monitor with an independent recogniser as classifier: exhaustive rejected token sequences, '
              'corruptions, random strings and every non-rule value type, each enforced against a spread of credentials; '
-             'icontract post-condition on parse_rule')
+             'icontract post-condition on parse_rule; overlapping and first-use loads under a deterministic line-level thread scheduler (sys.monitoring)')
 RULE = ('strata: S = every token sequence up to the length bound over {(,),and,or,not,role-check,colon-less word,'
         'quoted string}; T = one-token rules; E = one-edit corruptions (delete/insert/replace/unbalance) of grammatical '
         'sentences; R = random ASCII/Unicode strings built from rule fragments, exotic whitespace, quotes, full-width '
